@@ -232,7 +232,7 @@ def validate_traces_parallel(ctx, cfg, traces, label, parts=4, max_reject=4):
     shims = [_Part(ctx, i) for i in range(parts)]
     with concurrent.futures.ThreadPoolExecutor(max_workers=parts) as ex:
         futs = [ex.submit(vlib.validate_traces, shims[i], TRACE, cfg, traces[a:b], label="%s [part %d]" % (label, i),
-                          max_reject=max_reject) for i, (a, b) in enumerate(bounds)]
+                          max_reject=max_reject, chunk=15000) for i, (a, b) in enumerate(bounds)]
         acc, rej = 0, []
         for i, f in enumerate(futs):
             a_, r_ = f.result()
@@ -389,7 +389,18 @@ def run(ctx):
     log("leg A non-vacuity: %d deviations each violate their invariant" % len(nonvac))
 
     # ---- leg B generator ----------------------------------------------------------------------
-    behs = vlib.tlc_behaviours(ctx, "CacheStore", "CacheStore_gen.cfg", simulate=2500 if T else 350, depth=70)
+    # two flavours: with time (expiry classes, tick; no Del: pkg/cache has none) and with Del (no expiry:
+    # concurrent_map / LRU have none)
+    gen = open(os.path.join(vlib.VERIF, "spec", "CacheStore_gen.cfg")).read()
+    gen_time = gen.replace('"get", "store", "del", "len"', '"get", "store", "len"')
+    gen_del = gen.replace('Exps = {"long", "short", "past"}', 'Exps = {"long"}')
+    assert gen_time != gen and gen_del != gen
+    with concurrent.futures.ThreadPoolExecutor(max_workers=2) as ex:
+        f1 = ex.submit(vlib.tlc_behaviours, ctx, "CacheStore", "CacheStore_gen_time.cfg", simulate=2000 if T else 260,
+                       depth=70, cfg_text=gen_time)
+        f2 = ex.submit(vlib.tlc_behaviours, ctx, "CacheStore", "CacheStore_gen_del.cfg", simulate=1000 if T else 140,
+                       depth=70, cfg_text=gen_del)
+        behs = f1.result() + f2.result()
     sjobs = seq_jobs(rng, behs)
 
     # ---- driver -------------------------------------------------------------------------------
@@ -432,8 +443,10 @@ def run(ctx):
         if bad:
             mism += 1
             ctx.violation("sequential:%s:%s" % (j["target"], bad["step"]["op"]),
-                          "sequential replay on %s(size=%d): the specification requires %s, the code answered %s" % (
-                              j["target"], j["size"], bad["step"], bad["observed"]),
+                          "sequential replay on %s(size=%d), step %s(key %s): the specification requires %s, the code answered %s" % (
+                              j["target"], j["size"], bad["step"]["op"], bad["observed"]["k"],
+                              bad["step"]["rng"] if bad["step"]["op"] == "range" else bad["step"]["res"],
+                              bad["observed"]["rng"] if bad["step"]["op"] == "range" else bad["observed"]["res"]),
                           {"kind": "seq", "job": {k: j[k] for k in ("target", "size", "steps")}, "events": r["events"]})
     ctx.cov["sequential_replays"] = len(seq)
     ctx.cov["sequential_replays_in_phase"] = steered
